@@ -199,7 +199,7 @@ def hexToDts (s : List Char) : Py (Option DateTime) :=
   match ofHex s with
   | none => .error .valueError
   | some x =>
-    (mkDateTime (x / 2 ^ 24 % 128) (x / 2 ^ 36 % 16) (x / 2 ^ 31 % 32)
+    (mkDateTime (2000 + x / 2 ^ 24 % 128) (x / 2 ^ 36 % 16) (x / 2 ^ 31 % 32)
       (x / 2 ^ 19 % 32) (x / 2 ^ 13 % 64) (x / 2 ^ 7 % 64)).map some
 
 def hexFromDts : Option DateTime → List Char
